@@ -419,6 +419,20 @@ S4_MORE["C15"] = ("Settings.attr_dict on its executed body (a number, an array, 
 S4_MORE["C19"] += (" cli() on its executed body: one pool, one starmap for the worker, one task per file name in the order given, task i = (file name i, the object read from the "
                   "preprocessing settings file, the object read from the processing settings file, the options with the caller's values), pool of min(files, workers) "
                   "processes and chunks of max(1, files // workers) for --nproc given and default; nothing is started under --no_figure --no_file.")
+_CTOR_T = ("HvsrTraditional.__init__ under contract (2-D curves and a single curve, metadata given or not): the object holds the caller's frequencies and curves row by row in the "
+           "order given in storage of its own, accepts every window, keeps a private deep copy of the metadata and finds its peaks once, without arguments, when all of that is in "
+           "place; ValueError exactly when an input fails _check_input or the lengths disagree.")
+_CTOR_A = ("HvsrAzimuthal.__init__ under contract: entry i is a new HvsrTraditional built from the frequencies, curves and metadata of the caller's entry i (loop invariant over the "
+           "attribute-held lists), in the caller's order, as many as the shorter of the two lists; azimuth i is the caller's; ValueError exactly when an azimuth lies outside "
+           "[0, 180] or an entry is not similar to the first; peaks found once when the lists are complete.")
+_CTOR_C = "HvsrCurve.__init__ under contract: the caller's frequencies and amplitudes in own storage, equal lengths required, the peak found once with the defaults."
+S4_MORE["C03"] += " " + _CTOR_T
+S4_MORE["C05"] = _CTOR_T
+S4_MORE["C08"] = _CTOR_C + " " + _CTOR_T
+S4_MORE["C11"] = _CTOR_A
+S4_MORE["C12"] = "The constructors the reader rebuilds the objects with are under contract. " + _CTOR_T + " " + _CTOR_A + " " + _CTOR_C
+S4_MORE["C07"] += (" TimeSeries.from_trace: exactly the trace's samples, in order, in the time series' own storage, with the trace's sampling interval (either spelling: obspy keeps "
+                  "delta = 1 / sampling_rate).")
 for _k, _v in S4_MORE.items():
     S4[_k] = ((S4[_k][0] + " " + _v,) + tuple(S4[_k][1:])) if _k in S4 else (_v, None, None)
 for _pid, (_t, _n, _tech) in S4.items():
